@@ -93,6 +93,123 @@ _rect_cov(3, 4, "vecm")
 _rect_cov(4, 5, "vecm")
 
 
+def _rect_cov_history(mutation):
+    @task("C10", "Rect.history[is_covered, m=2, K=2, slack=zero: construct, use, %s, use]" % mutation)
+    def _t(t):
+        """The verdict refers to the region's CURRENT bounds along a history: the first region is built by the real constructor,
+        used once (so that anything the predicate or the region remembers is filled in), changed by the real `%s`, and used
+        again; the second verdict must be the specification's verdict for the bounds the region then displays.""" % mutation
+        from pyvc.values import SObj
+        from pyvc.harness import cls_ref
+        from pyvc.symexec import find_obj
+        from pyvc import libmodel as L
+        m, K = 2, 2
+        t.mode = "unrolled m=2 K=2, call sequence on one region object"
+        order = t.inp("order", InOrder("o", K, m))
+        O = t.inputs["order"]
+        lo0, up0 = t.inp("lo0", InArr("lo0", (m,))), t.inp("up0", InArr("up0", (m,)))
+        lo2_, up2_ = t.inp("lo2", InArr("lo2", (m,))), t.inp("up2", InArr("up2", (m,)))
+        LO0, UP0 = t.inputs["lo0"].snapshot.flat(), t.inputs["up0"].snapshot.flat()
+        lo2, up2 = t.inputs["lo2"].snapshot.flat(), t.inputs["up2"].snapshot.flat()
+        t.assume(*[V.R(a) <= V.R(b) for a, b in zip(list(LO0) + list(lo2), list(UP0) + list(up2))])
+        # both regions are built by the real constructor (complete objects: whatever the class keeps besides its bounds is there)
+        r1, r2 = SObj(cls_ref(CR, "RectangularConfidenceRegion")), SObj(cls_ref(CR, "RectangularConfidenceRegion"))
+        made = [p for p in t.run(CR, "RectangularConfidenceRegion.__init__", [m, lo0, up0, mutation == "intersect"], self_val=r1) if p.kind == "return"]
+        if len(made) == 1:
+            made = [p for p in t.run(CR, "RectangularConfidenceRegion.__init__", [m, lo2_, up2_], self_val=r2, after=made[0]) if p.kind == "return"]
+        if len(made) != 1:
+            t.prove("constructors_return_on_one_path", False)
+            return
+        first = [p for p in t.run(CR, "RectangularConfidenceRegion.is_covered", [None, order, r1, r2, 0], after=made[0]) if p.kind == "return"]
+        n0 = len(t.ctx.cvx)
+        if mutation == "intersect":
+            nl, nu = t.inp("nl", InArr("nl", (m,))), t.inp("nu", InArr("nu", (m,)))
+            NL, NU = t.inputs["nl"].snapshot.flat(), t.inputs["nu"].snapshot.flat()
+            t.assume(*[V.R(a) <= V.R(b) for a, b in zip(NL, NU)])
+            step = lambda p: t.run(CR, "RectangularConfidenceRegion.intersect", [nl, nu], self_val=r1, after=p)
+        else:
+            mean, cov = t.inp("mean", InArr("mu", (m,))), t.inp("cov", InArr("cov", (m, m)))
+            sc = t.inp("scale", InArr("sc", ()))
+            C = t.inputs["cov"].snapshot
+            t.assume(*[V.R(C.a[j, j]) >= 0 for j in range(m)], V.R(t.inputs["scale"].snapshot.flat()[0]) >= 0)
+            step = lambda p: t.run(CR, "RectangularConfidenceRegion.update", [mean, cov, sc], self_val=r1, after=p)
+        second = []
+        for p in first[:2]:
+            for q in step(p):
+                if q.kind == "return":
+                    second += t.run(CR, "RectangularConfidenceRegion.is_covered", [None, order, r1, r2, 0], after=q)
+        t.prove("history_reaches_the_second_use", z3.BoolVal(len(second) > 0))
+        t.must_fail()
+        t.no_raise(second)
+        W = S.rows_of(O)
+        proved = {}
+
+        def goal(p):
+            if p.kind != "return":
+                return False
+            cur = find_obj(p.st, r1.oid)
+            lo1, up1 = cur.fields["lower"].flat(), cur.fields["upper"].flat()
+            COVERED = z3.Bool("covered_spec_now")
+            spec_of = lambda z, zp: z3.And(S.in_box(z, lo1, up1), S.in_box(zp, lo2, up2), *[S.dot(w, S.vsub(zp, z)) >= 0 for w in W])
+            links = []
+            for rec in cvx_for_path(t, p):
+                i = [k for k, r_ in enumerate(t.ctx.cvx) if r_ is rec][0]
+                if i < n0:
+                    continue
+                vs = rec["vars"][-2 * m:]      # the variables of THIS program (the context also remembers the first use's)
+                if len(vs) != 2 * m:
+                    return False
+                spec = spec_of(vs[:m], vs[m:2 * m])
+                key = (i, tuple(x.get_id() if hasattr(x, "get_id") else repr(x) for x in list(lo1) + list(up1)))
+                if key not in proved:
+                    r = t.prove("program_of_the_second_use_is_the_spec_for_the_current_bounds#%d" % len(proved), rec["constraints"] == spec,
+                                assumptions=rec["pc"][len(t.pre):])
+                    proved[key] = r is not None and r["status"] == "proved"
+                if proved[key]:
+                    own = rec["pc"][len(t.pre):]
+                    links.append(z3.Implies(z3.And(*own) if own else z3.BoolVal(True), rec["feas"] == COVERED))
+            # witnesses / certificates for verdicts reached without a program
+            mid = lambda lo, up: [(V.R(a) + V.R(b)) / 2 for a, b in zip(lo, up)]
+            pts1 = [list(v) for v in S.verts(lo1, up1)] + [mid(lo1, up1)]
+            pts2 = [list(v) for v in S.verts(lo2, up2)] + [mid(lo2, up2)]
+            links += [z3.Implies(spec_of(a_, b_), COVERED) for a_ in pts1 for b_ in pts2]
+            for w in W:
+                links.append(z3.Implies(z3.And(*[S.dot(w, S.vsub(list(v2), list(v1))) < 0 for v1 in S.verts(lo1, up1) for v2 in S.verts(lo2, up2)]), z3.Not(COVERED)))
+            return z3.Implies(z3.And(*links), V.Bz(p.value) == COVERED)
+
+        def replay(mdl):
+            me = lambda x: mdl.eval(V.Z(x), model_completion=True)
+            I = t.inputs
+            L_ = ["from scipy.optimize import linprog",
+                  "order = %s" % I["order"].src(me),
+                  "r1 = RectangularConfidenceRegion(2, %s, %s, intersect_iteratively=%r)" % (I["lo0"].src(me), I["up0"].src(me), mutation == "intersect"),
+                  "r2 = RectangularConfidenceRegion(2, %s, %s)" % (I["lo2"].src(me), I["up2"].src(me)),
+                  "first = RectangularConfidenceRegion.is_covered(order, r1, r2, 0)"]
+            if mutation == "intersect":
+                L_.append("r1.intersect(%s, %s)" % (I["nl"].src(me), I["nu"].src(me)))
+            else:
+                L_.append("r1.update(%s, %s, %s)" % (I["mean"].src(me), I["cov"].src(me), I["scale"].src(me)))
+            L_ += ["second = bool(RectangularConfidenceRegion.is_covered(order, r1, r2, 0))",
+                   "W = np.asarray(order.ordering_cone.W, dtype=float)",
+                   "# LP oracle on the bounds the region displays NOW: exists z in R1, z' in R2 with W (z' - z) >= 0 ?  (maximise the least facet margin)",
+                   "c = np.zeros(5); c[-1] = -1.0",
+                   "A = np.hstack([W, -W, np.ones((W.shape[0], 1))])    # W z - W z' + t <= 0",
+                   "bounds = [(r1.lower[0], r1.upper[0]), (r1.lower[1], r1.upper[1]), (r2.lower[0], r2.upper[0]), (r2.lower[1], r2.upper[1]), (None, 1.0)]",
+                   "res = linprog(c, A_ub=A, b_ub=np.zeros(W.shape[0]), bounds=bounds, method='highs')",
+                   "margin = res.x[-1] if res.status == 0 else float('-inf')",
+                   "print('first use:', first, ' bounds now:', r1.lower, r1.upper, ' second use:', second, ' oracle margin on the current bounds:', margin)",
+                   "if abs(margin) > 1e-7 and second != (margin > 0):",
+                   "    print('REPLAY-CONFIRMED obligation=%s (the second verdict does not refer to the bounds now displayed)' % OBLIGATION)", "    raise SystemExit(1)",
+                   "print('REPLAY-NOT-REPRODUCED obligation=%s' % OBLIGATION)", "raise SystemExit(4)"]
+            return L_
+        t.prove_paths("second_verdict_is_the_specification_verdict_for_the_bounds_now_displayed", second, goal, replay=replay)
+    return _t
+
+
+_rect_cov_history("intersect")
+_rect_cov_history("update")
+
+
 @task("C10", "Rect.is_covered.raises[m=2,K=3,slack_size=3]")
 def _rect_cov_badslack(t):
     """K = 3 facets, m = 2: a per-facet slack vector (size 3) is rejected by the rectangle routine."""
